@@ -129,6 +129,17 @@ fn rand_cmds(rng: &mut Rng, nchildren: usize, len: u64, group: bool, nmembers: u
     cmds
 }
 
+/// A Vec length for the "any length" spec (n = 999): mostly next to a power of two or a multiple of 16 / 32
+/// (bit-set blocks, inline-storage limits, cooperative budgets), otherwise uniform in 0..=130.
+pub fn pick_len(rng: &mut Rng) -> usize {
+    const EDGES: [usize; 24] = [7, 8, 9, 15, 16, 17, 21, 22, 23, 24, 31, 32, 33, 47, 48, 63, 64, 65, 66, 96, 97, 127, 128, 129];
+    if rng.chance(65) {
+        EDGES[rng.below(EDGES.len() as u64) as usize]
+    } else {
+        rng.below(131) as usize
+    }
+}
+
 pub fn gen_vector(rng: &mut Rng, id: String, fam: &str, cont: &str, n: usize, profile: &str) -> Vector {
     if fam == "co" {
         return crate::co::gen_vector(rng, id, cont, n, profile);
@@ -169,6 +180,27 @@ pub fn gen_vector(rng: &mut Rng, id: String, fam: &str, cont: &str, n: usize, pr
     if fam == "wait_until_stream" {
         scripts[0] = fut_script(rng, 2, false, 3, 0);
         scripts[1] = stream_script(rng, 2, 5, 35);
+    }
+    // shapes a purely random script seldom has: every child answers at once (an "eager" run: size- and
+    // count-dependent behaviour such as budgets, block boundaries of the bit sets), or every child takes the
+    // same number of polls
+    if !group && !fam.starts_with("wait_until") && profile != "fair" {
+        let shape = rng.below(100);
+        if shape < 10 {
+            for s in scripts.iter_mut() {
+                s.steps.retain(|st| st.r != "p");
+                for st in s.steps.iter_mut() {
+                    st.fires.clear();
+                }
+            }
+        } else if shape < 17 && !is_stream {
+            let k = 1 + rng.below(2) as usize;
+            for s in scripts.iter_mut() {
+                let ok = s.tail_ok && s.steps.iter().all(|st| st.ok);
+                s.steps = (0..k).map(|_| step("p")).collect();
+                s.tail_ok = ok;
+            }
+        }
     }
     // never-completing children
     if (profile == "never" || (profile == "mixed" && rng.chance(15))) && nchildren > 0 && !fam.starts_with("wait_until") {
